@@ -446,13 +446,18 @@ def l5(ctx):
                     ctx.violate(key, p, 'close succeeds on an already closed channel')
                 fields = {w.data['field']: w for w in wrs}
                 for f in ('recv_count', 'send_count'):
+                    sh = short(f)
+                    already = has(lb, sh, 'T') and not has(lb, sh, 'F') and f not in fields
+                    if already:
+                        continue  # this side had no handle left: the count is 0 and stays 0
                     if f not in fields or not is_const(fields[f].data['val'], 0):
                         ctx.violate(key, p, 'close does not set %s to 0' % f)
                 for w in wrs:
                     if w.data['field'] not in ('recv_count', 'send_count'):
                         ctx.violate(key, p, 'close writes %s' % w.data['field'], at=w.at)
-                if len(term) != 1:
-                    ctx.violate(key, p, 'close does not terminate the waiters exactly once (%d)' % len(term))
+                if len(term) < 1:
+                    ctx.violate(key, p, 'close does not terminate the waiters')
+                # (a second terminate_signals() finds the list already cleared by the first: harmless)
                 if len(clr) != 1:
                     ctx.violate(key, p, 'close does not clear the buffer (buffered values must be destroyed by the time close returns)')
                 if unl:
@@ -750,6 +755,22 @@ PANIC_ALLOWED = {
 }
 
 
+def panic_feasible(ctx, owner, kind):
+    """can the API function `owner`, with its private helpers spliced in and constants folded, reach a construct of this kind?
+    (True whenever that cannot be decided)"""
+    if kind not in ('panic', 'Option::unwrap'):
+        return True
+    b = ctx.facts.bodies.get(owner)
+    if b is None:
+        return True
+    ps = ctx.paths(b)
+    if ps is None:
+        return True
+    if kind == 'panic':
+        return any(p.end not in ('return', 'unreachable') for p in ps)
+    return any(e.kind == 'call' and e.name == 'std::option::Option::unwrap' for p in ps for e in p.events)
+
+
 @rule('O2', ['C18'], 'panic inventory: no new panic-capable construct in the library')
 def o2(ctx):
     seen = set()
@@ -780,6 +801,8 @@ def o2(ctx):
         ctx.instance('%s %s' % (key, kind))
         if (key, kind) not in PANIC_ALLOWED:
             os_ = fam.owners(ctx, key)
-            if fam.is_delegate(ctx.facts, key) and all((o, kind) in PANIC_ALLOWED for o in os_):
-                continue  # a private helper / closure: the construct is accounted for in every API function it serves
+            if fam.is_delegate(ctx.facts, key) and all((o, kind) in PANIC_ALLOWED or not panic_feasible(ctx, o, kind) for o in os_):
+                # a private helper / closure: the construct is accounted for in every API function it serves, or cannot be
+                # reached from that function (`helper(&mut Some(data))`: the helper's `data.take().unwrap()` folds away)
+                continue
             ctx.violate(key, None, 'new panic-capable construct (%s) not in the accepted inventory' % kind, at=at, sig='panic:' + kind)
